@@ -463,7 +463,9 @@ func concurrentCase(c *vh.Case) {
 	for g := range plans {
 		for j := 0; j < perG; j++ {
 			p := plan{stream: streams[r.Intn(nStreams)]}
-			switch x := r.Intn(10); {
+			switch x := r.Intn(11); {
+			case x == 10:
+				p.kind = "open" // a new stream (sometimes of a new session) is opened while others work
 			case x < 6:
 				p.kind, p.size = "append", r.Range(6, 20)
 			case x < 9 || !evict:
@@ -523,6 +525,17 @@ func concurrentCase(c *vh.Case) {
 					mu.Unlock()
 				case "setmax":
 					s.SetMaxBytes(p.setmax)
+				case "open":
+					sess := "S"
+					if j%2 == 1 {
+						sess = fmt.Sprintf("N%d", g)
+					}
+					if err := s.Open(ctx, sess, fmt.Sprintf("new%d.%d", g, j)); err != nil {
+						mu.Lock()
+						hist = append(hist, cOp{G: g, Kind: "open", ErrText: err.Error()})
+						mu.Unlock()
+					}
+					s.MaxBytes()
 				}
 				if withClose && j == 1 && g == 0 {
 					s.Append(ctx, "OTHER", "t0", []byte("other-session-data"))
